@@ -10,6 +10,17 @@
 #include <gnutls/abstract.h>
 #include "vf.h"
 #include "ref.h"
+
+/* C18: every static-lifetime object of the provider unit (list generated from the goto symbol
+ * table on every run, vf/c18.py) keeps its value across a sign/verify call */
+#ifdef PROP_C18
+#include "c18g_gen.h"
+#define C18_BEGIN() do { c18_havoc(); c18_snapshot(); } while (0)
+#define C18_END() c18_check()
+#else
+#define C18_BEGIN() ((void)0)
+#define C18_END() ((void)0)
+#endif
 #include "gnutls_stubs.h"
 
 json_t *vf_parse(unsigned call_no, const char *buf, size_t len, size_t flags) { return NULL; }
@@ -93,7 +104,9 @@ int main(void)
 	for (i = 0; i < SIGMAX; i++)
 		sig[i] = nondet_uchar();
 
+	C18_BEGIN();
 	r = jwt_gnutls_ops.verify_sha_pem(&jwt, head, 5, sig, sig_len);
+	C18_END();
 	/* the core layer accepts iff the return value is 0 and the per-call error flag is clear */
 	accepted = (r == 0 && jwt.error == 0);
 
@@ -147,7 +160,9 @@ int main(void)
 #endif
 	w = field_bytes(jwt.alg);
 	vg_width = w;
+	C18_BEGIN();
 	r = jwt_gnutls_ops.sign_sha_pem(&jwt, &out, &len, str, 5);
+	C18_END();
 	if (r == 0 && jwt.error == 0) {
 		unsigned same = 1;
 		unsigned ro = vg_dec_r_len > w ? vg_dec_r_len - w : 0, so = vg_dec_s_len > w ? vg_dec_s_len - w : 0;
@@ -198,7 +213,9 @@ int main(void)
 		key.provider = JWT_CRYPTO_OPS_ANY;
 		key.oct.key = okey;
 		key.oct.len = nondet_size_t();
+		C18_BEGIN();
 		r = jwt_gnutls_ops.sign_sha_hmac(&jwt, &out, &len, str, 5);
+		C18_END();
 		if (r == 0) {
 			PROP(vg_hmac_calls == 1 && out != NULL, "C05: HMAC computed once");
 			PROP(vg_hmac_alg == (jwt.alg == JWT_ALG_HS256 ? GNUTLS_MAC_SHA256 : jwt.alg == JWT_ALG_HS384 ? GNUTLS_MAC_SHA384 : GNUTLS_MAC_SHA512),
@@ -211,7 +228,9 @@ int main(void)
 		return 0;
 	}
 	__CPROVER_assume(!is_es(jwt.alg));
+	C18_BEGIN();
 	r = jwt_gnutls_ops.sign_sha_pem(&jwt, &out, &len, str, 5);
+	C18_END();
 	if (r == 0 && jwt.error == 0) {
 		unsigned same = 1;
 		int pss = jwt.alg == JWT_ALG_PS256 || jwt.alg == JWT_ALG_PS384 || jwt.alg == JWT_ALG_PS512;
